@@ -617,7 +617,13 @@ pub fn generate_c15(run_seed: u64, thorough: bool, faults: bool) -> ListDesc {
             } else if let Some(t) = target {
                 if let Some(id) = m.slots[t] {
                     let len = m.heap.lists[id].len() as u64;
-                    let mutation = if len >= 2 && g.r.chance(2, 3) {
+                    // lists of lists: the change may also happen *inside* an element, through the
+                    // inner list's own handle - the outer list itself does not change at all
+                    let inner_refs: Vec<usize> = m.heap.lists[id].iter().filter_map(|v| if let MVal::Ref(r) = v { Some(*r) } else { None }).filter(|r| *r < n_inner).collect();
+                    let mutation = if elem == ElemKind::Nested && !inner_refs.is_empty() && g.r.chance(1, 2) {
+                        g.next_val += 1;
+                        Op::InnerPush { inner: *g.r.pick(&inner_refs), v: 100 + g.next_val }
+                    } else if len >= 2 && g.r.chance(2, 3) {
                         let i = g.r.below(len);
                         let j = (i + 1 + g.r.below(len - 1)) % len;
                         Op::Swap { h: t, i, j }
@@ -1061,7 +1067,10 @@ fn check_seq<E: Elem + std::fmt::Debug>(
     let ok = match (op, &exp, obs) {
         (Op::Cap { h }, Obs::Num(len), Obs::Num(c)) => {
             let _ = h;
-            if std::mem::size_of::<E::Transformed>() == 0 { *c == u64::MAX } else { c >= len }
+            // (the growth policy is not part of the oracle - not even "unbounded" for zero-sized
+            // elements: the property asks for the results of a shared vector, and every capacity
+            // that is at least the length is one a vector may report)
+            c >= len
         }
         (Op::Debug { h }, _, Obs::Text(t)) => {
             // expected text: the same element formatting applied to the model's contents
@@ -1072,8 +1081,20 @@ fn check_seq<E: Elem + std::fmt::Debug>(
                         let _rg = alloc::ModeGuard::new(alloc::MODE_PLAIN);
                         m.heap.lists[id].iter().map(|x| E::from_m(x, &ex.inner)).collect()
                     };
-                    let e = format!("List([{}])", v.iter().map(|x| x.debug()).collect::<Vec<_>>().join(", "));
-                    e == *t
+                    // `Debug` is not one of the operations the property lists: its exact format is
+                    // free. It must show the elements, in order (and is exercised because it reads
+                    // the whole list under the lock).
+                    let mut rest: &str = t.as_str();
+                    v.iter().all(|x| {
+                        let d = x.debug();
+                        match rest.find(&d) {
+                            Some(p) => {
+                                rest = &rest[p + d.len()..];
+                                true
+                            }
+                            None => false,
+                        }
+                    })
                 }
                 None => false,
             }
